@@ -169,41 +169,20 @@ func rulesC14(c *Ctx) {
 	// ---- R2 wait loop is complete -----------------------------------------------------
 	{
 		facts := factsFor(waitFor)
-		var wc, gc *ssa.Call
-		for _, ci := range Calls(waitFor) {
-			if call, ok := ci.Instr.(*ssa.Call); ok {
-				if ci.Method != nil && ci.Method.Name() == "Wait" {
-					wc = call
-				}
-				if ci.Method != nil && ci.Method.Name() == "Get" {
-					gc = call
-				}
-			}
-		}
 		edges := loopBackEdges(waitFor)
-		if wc == nil || gc == nil || len(edges) == 0 {
-			c.Bad("R2", "wait loop of runner.(*Runner).waitForTasks", waitFor.Pos(), "cannot find the loop over the wait list with Get and Wait; cannot certify")
+		if len(edges) == 0 {
+			c.Bad("R2", "wait loop of runner.(*Runner).waitForTasks", waitFor.Pos(), "cannot find the loop over the wait list; cannot certify")
 		} else {
 			ok := true
 			why := ""
-			if !inLoop(waitFor, wc.Block()) {
-				ok, why = false, "Wait() of the related task is not inside the loop over the wait list"
-			}
 			for _, e := range edges {
-				fs := factsOnEdge(facts, e[0], e[1])
-				found := false
-				for _, ex := range resultN(gc, 1) {
-					if fs[fact{ex, true}] {
-						found = true
-					}
-				}
-				if !found {
+				got := waitProps(waitFor, factsOnEdge(facts, e[0], e[1]), 0)
+				switch {
+				case !got["found"]:
 					ok, why = false, "an iteration continues without the named task having been found"
-				}
-				if !knownNilIn(fs, wc, true) {
+				case !got["waitNil"]:
 					ok, why = false, "an iteration continues without that task's Wait() result having been tested nil (only the last wait is examined)"
-				}
-				if !knownLenZeroOfCall(fs, func(x *ssa.Call) bool { return methodNamed(x, "Errors") }) {
+				case !got["errEmpty"]:
 					ok, why = false, "an iteration continues without that task's error list having been tested empty"
 				}
 			}
@@ -212,7 +191,7 @@ func rulesC14(c *Ctx) {
 					ok, why = false, "success is returned from inside the loop (remaining names are not waited for)"
 				}
 			}
-			c.Check(ok, "R2", "wait loop of runner.(*Runner).waitForTasks", wc.Pos(), "every continuing iteration established: found, Wait()==nil, Errors() empty; success only after the loop",
+			c.Check(ok, "R2", "wait loop of runner.(*Runner).waitForTasks", waitFor.Pos(), "every continuing iteration established: found, Wait()==nil, Errors() empty; success only after the loop",
 				why+" — a task starts although a prerequisite failed or is unfinished")
 		}
 	}
@@ -230,10 +209,28 @@ func rulesC14(c *Ctx) {
 		}
 		return out
 	}
+	var countOnD func(f *ssa.Function, is func(in ssa.Instruction, deferred bool) bool, depth int) (min, max int)
 	countOn := func(f *ssa.Function, is func(in ssa.Instruction, deferred bool) bool) (min, max int) {
+		return countOnD(f, is, 0)
+	}
+	countOnD = func(f *ssa.Function, is func(in ssa.Instruction, deferred bool) bool, depth int) (min, max int) {
 		exits := RunPaths(f, nil, 0, func(st int, in ssa.Instruction, d bool) int {
 			if is(in, d) && st < 3 {
 				return st + 1
+			}
+			// a plain call of a private helper of the package contributes what the helper does on every path
+			if ci := callInfo(in, nil, 0); ci != nil && ci.Kind == "call" && ci.Static != nil && ci.Static.Pkg == f.Pkg && ci.Static.Blocks != nil &&
+				ci.Static != f && depth < 2 && (ci.Static.Object() == nil || !ci.Static.Object().Exported()) {
+				hmin, hmax := countOnD(ci.Static, is, depth+1)
+				if hmax > 0 {
+					if hmin != hmax {
+						return 3
+					}
+					if st+hmin > 3 {
+						return 3
+					}
+					return st + hmin
+				}
 			}
 			return st
 		}, false, nil)
@@ -266,6 +263,11 @@ func rulesC14(c *Ctx) {
 		}
 		c.Check(okArm, "R3", "tasks.NewTask arms the latch once", newTask.Pos(), "wg.Add(1) exactly once on every path", "the completion latch is not armed exactly once — Wait returns early or never")
 		dones := wgCalls(tclose, "Done")
+		for _, g := range reachableSamePkg(tclose, 2) {
+			if g.Object() == nil || !g.Object().Exported() {
+				dones = append(dones, wgCalls(g, "Done")...)
+			}
+		}
 		mn, mx = countOn(tclose, func(in ssa.Instruction, d bool) bool {
 			for _, a := range dones {
 				if a.Instr == in {
@@ -658,4 +660,92 @@ func reachesBlock(from, to *ssa.BasicBlock) bool {
 		stack = append(stack, x.Succs...)
 	}
 	return false
+}
+
+// waitProps: what the facts fs (in function fn) establish about one prerequisite:
+// "found" (TasksManager.Get's ok is true), "waitNil" (its Wait() returned nil),
+// "errEmpty" (len(Errors()) == 0) - directly, or because a private helper of the
+// package returned a nil error and establishes them on each of its possibly-nil returns.
+func waitProps(fn *ssa.Function, fs factSet, depth int) map[string]bool {
+	out := map[string]bool{}
+	for k := range fs {
+		if ex, ok := k.v.(*ssa.Extract); ok && ex.Index == 1 && k.pol {
+			if call, ok := ex.Tuple.(*ssa.Call); ok && methodNamed(call, "Get") {
+				out["found"] = true
+			}
+		}
+	}
+	if knownLenZeroOfCall(fs, func(x *ssa.Call) bool { return methodNamed(x, "Errors") }) {
+		out["errEmpty"] = true
+	}
+	for k := range fs {
+		bo, ok := k.v.(*ssa.BinOp)
+		if !ok || (bo.Op != token.EQL && bo.Op != token.NEQ) {
+			continue
+		}
+		other := bo.X
+		if isNilConst(bo.X) {
+			other = bo.Y
+		} else if !isNilConst(bo.Y) {
+			continue
+		}
+		if (bo.Op == token.EQL) != k.pol {
+			continue // known non-nil
+		}
+		ro := resolve(other)
+		call, isCall := ro.(*ssa.Call)
+		if ex, isEx := ro.(*ssa.Extract); isEx {
+			call, isCall = ex.Tuple.(*ssa.Call)
+		}
+		if !isCall {
+			continue
+		}
+		if methodNamed(call, "Wait") {
+			out["waitNil"] = true
+		}
+		if h := call.Call.StaticCallee(); h != nil && h.Pkg == fn.Pkg && h.Blocks != nil && depth < 3 {
+			for p := range nilReturnProps(h, depth+1) {
+				out[p] = true
+			}
+		}
+	}
+	return out
+}
+
+// nilReturnProps: the properties established at every possibly-nil return of h.
+func nilReturnProps(h *ssa.Function, depth int) map[string]bool {
+	ei := errResultIndex(h.Signature)
+	if ei < 0 {
+		return nil
+	}
+	facts := factsFor(h)
+	var res map[string]bool
+	for _, r := range returnsOf(h) {
+		ev := r.Results[ei]
+		if facts.HoldsOnAllEdges(r.Block(), func(fs factSet) bool { return knownNilIn(fs, ev, false) }) {
+			continue
+		}
+		got := waitProps(h, facts.At(r.Block()), depth)
+		// handing on another helper's result
+		if call, ok := resolve(ev).(*ssa.Call); ok {
+			if h2 := call.Call.StaticCallee(); h2 != nil && h2.Pkg == h.Pkg && h2.Blocks != nil && depth < 3 {
+				for p := range nilReturnProps(h2, depth+1) {
+					got[p] = true
+				}
+			}
+			if methodNamed(call, "Wait") {
+				got["waitNil"] = true
+			}
+		}
+		if res == nil {
+			res = got
+		} else {
+			for p := range res {
+				if !got[p] {
+					delete(res, p)
+				}
+			}
+		}
+	}
+	return res
 }
